@@ -1,46 +1,89 @@
-(* C19 -- the key normalisation of Matrix.__getitem__ / __setitem__ REGENERATED from the source
-   (Gen/MatrixKeys.v, symbolic execution of the `if isinstance(key, tuple):` fragment for every
-   combination of int / slice keys, and of the single-int-key case) equals the model's key_get / key_set
-   on which every getitem/setitem theorem rests. *)
-From PyRTL Require Import Base.PyZ Lib.Matrix Gen.MatrixKeys.
+(* C19 -- key normalisation of __getitem__/__setitem__ regenerated from the source = the model's key_get/key_set *)
+From PyRTL Require Import Base.PyZ Lib.Matrix Gen.MatrixKeys Lib.MatrixKeysBase Lib.MatrixKeysGet Lib.MatrixKeysSet.
 From Coq Require Import ZifyBool.
 
-Definition keys_model (kg : Z -> key1 -> option (Z * Z)) (r c : Z) (kr kc : key1) : option (Z * Z * Z * Z) :=
-  match kg r kr, kg c kc with
-  | Some (a, b), Some (c0, d) => Some (a, b, c0, d)
-  | _, _ => None
-  end.
-
-Ltac kstep :=
-  match goal with
-  | |- context [Z.ltb ?a ?b] => destruct (Z.ltb a b) eqn:?
-  | |- context [Z.gtb ?a ?b] => destruct (Z.gtb a b) eqn:?
-  | |- context [Z.eqb ?a ?b] => destruct (Z.eqb a b) eqn:?
-  end.
-Ltac kcases :=
-  cbv zeta; repeat (cbn [orb andb negb]; cbv iota; try reflexivity; kstep);
-  cbn [orb andb negb]; cbv iota; try reflexivity; try lia.
-
-Lemma gen_getitem_II r c x y : getitem_keys_II_gen r c x y = keys_model key_get r c (KInt x) (KInt y).
-Proof. unfold getitem_keys_II_gen, keys_model, key_get, neg_norm, chk. kcases. Qed.
-
-Lemma gen_getitem_IS r c x a b st :
-  getitem_keys_IS_gen r c x a b st = keys_model key_get r c (KInt x) (KSl a b st).
+(* ---- the statements the Props file exports ---- *)
+Theorem gen_getitem_keys r c kr kc :
+  match kr, kc with
+  | KInt x, KInt y => getitem_keys_II_gen r c x y
+  | KInt x, KSl a b st => getitem_keys_IS_gen r c x a b st
+  | KSl a b st, KInt y => getitem_keys_SI_gen r c a b st y
+  | KSl a b st, KSl a' b' st' => getitem_keys_SS_gen r c a b st a' b' st'
+  end = keys_model key_get r c kr kc.
 Proof.
-  unfold getitem_keys_IS_gen, keys_model, key_get, sl_bounds, step_accepted, neg_norm, chk.
-  destruct a, b, st; kcases.
+  destruct kr, kc; [apply gen_getitem_II|apply gen_getitem_IS|apply gen_getitem_SI|apply gen_getitem_SS].
 Qed.
 
-Lemma gen_getitem_SI r c a b st y :
-  getitem_keys_SI_gen r c a b st y = keys_model key_get r c (KSl a b st) (KInt y).
+Theorem gen_setitem_keys r c kr kc :
+  match kr, kc with
+  | KInt x, KInt y => setitem_keys_II_gen r c x y
+  | KInt x, KSl a b st => setitem_keys_IS_gen r c x a b st
+  | KSl a b st, KInt y => setitem_keys_SI_gen r c a b st y
+  | KSl a b st, KSl a' b' st' => setitem_keys_SS_gen r c a b st a' b' st'
+  end = keys_model key_set r c kr kc.
 Proof.
-  unfold getitem_keys_SI_gen, keys_model, key_get, sl_bounds, step_accepted, neg_norm, chk.
-  destruct a, b, st; kcases.
+  destruct kr, kc; [apply gen_setitem_II|apply gen_setitem_IS|apply gen_setitem_SI|apply gen_setitem_SS].
 Qed.
 
-Lemma gen_getitem_SS r c a b st a' b' st' :
-  getitem_keys_SS_gen r c a b st a' b' st' = keys_model key_get r c (KSl a b st) (KSl a' b' st').
+(* m[k] / m[k] = v with a single int: the code builds slice(start, start+1, None) and recurses with
+   self[key, :]; this is the model's (KInt k, full slice) *)
+Theorem gen_getitem_intkey r c k :
+  match getitem_intkey_gen r c k with
+  | Some (s, e) => getitem_keys_SS_gen r c (Some s) (Some e) None None None None
+  | None => None
+  end = keys_model key_get r c (KInt k) (KSl None None None).
 Proof.
-  unfold getitem_keys_SS_gen, keys_model, key_get, sl_bounds, step_accepted, neg_norm, chk.
-  destruct a, b, st, a', b', st'; kcases.
+  unfold getitem_intkey_gen, getitem_keys_SS_gen, keys_model, key_get, sl_bounds, step_accepted, neg_norm, chk.
+  kcases.
+Qed.
+
+Theorem gen_setitem_intkey r c k :
+  match setitem_intkey_gen r c k with
+  | Some (s, e) => setitem_keys_SS_gen r c (Some s) (Some e) None None None None
+  | None => None
+  end = keys_model key_set r c (KInt k) (KSl None None None).
+Proof.
+  unfold setitem_intkey_gen, setitem_keys_SS_gen, keys_model, key_set, sl_bounds, neg_norm, chk.
+  kcases.
+Qed.
+
+(* what __getitem__ does with the resolved bounds: the single-element test, the result's shape and the
+   source coordinates are the regenerated expressions *)
+Lemma mk_ext r c f g : (forall i j, f i j = g i j) -> mk r c f = mk r c g.
+Proof. intros H. unfold mk. apply map_ext. intros i. apply map_ext. intros j. apply H. Qed.
+
+Lemma key_get_nonneg n k s e : key_get n k = Some (s, e) -> 0 <= s.
+Proof.
+  unfold key_get, sl_bounds, chk, neg_norm. destruct k as [z|a b st].
+  - cbv zeta. repeat match goal with |- context [if ?c then _ else _] => destruct c eqn:? end;
+      intros H; inversion H; subst; lia.
+  - destruct (step_accepted st); [|discriminate].
+    repeat match goal with |- context [if ?c then _ else _] => destruct c eqn:? end;
+      intros H; inversion H; subst; lia.
+Qed.
+
+Theorem gen_getitem_block a kr kc :
+  mgetitem a kr kc =
+  match keys_model key_get (Z.of_nat (rows_of a)) (Z.of_nat (cols_of a)) kr kc with
+  | None => None
+  | Some (rs, re, cs, ce) =>
+      let nr := getitem_result_rows_gen rs re cs ce in
+      let nc := getitem_result_cols_gen rs re cs ce in
+      if (nr <=? 0) || (nc <=? 0) then None
+      else if getitem_is_scalar_gen rs re cs ce
+           then Some (MkMx (bits a) (maxb a) [[el a (Z.to_nat rs) (Z.to_nat cs)]])
+           else Some (mnew (Z.to_nat nr) (Z.to_nat nc) (bits a) (maxb a) (fun i j =>
+                  el a (Z.to_nat (getitem_src_row_gen rs re cs ce (Z.of_nat i) (Z.of_nat j)))
+                       (Z.to_nat (getitem_src_col_gen rs re cs ce (Z.of_nat i) (Z.of_nat j)))))
+  end.
+Proof.
+  unfold mgetitem, keys_model.
+  destruct (key_get (Z.of_nat (rows_of a)) kr) as [[rs re]|] eqn:Er; [|reflexivity].
+  destruct (key_get (Z.of_nat (cols_of a)) kc) as [[cs ce]|] eqn:Ec; [|reflexivity].
+  pose proof (key_get_nonneg _ _ _ _ Er) as Hr. pose proof (key_get_nonneg _ _ _ _ Ec) as Hc.
+  cbv zeta. unfold getitem_result_rows_gen, getitem_result_cols_gen, getitem_is_scalar_gen,
+    getitem_src_row_gen, getitem_src_col_gen.
+  destruct ((re - rs <=? 0) || (ce - cs <=? 0)); [reflexivity|].
+  destruct ((re - rs =? 1) && (ce - cs =? 1)); [reflexivity|].
+  f_equal. unfold mnew. f_equal. apply mk_ext. intros i j. f_equal. f_equal; lia.
 Qed.
